@@ -55,6 +55,7 @@ def knobs_of(shape, idx, tier, rng):
         "inst_rot": [0, 1, -1, 0, 2, -2][idx % 6],
         "tbl_nozero": idx % 4 == 2,
         "fx_overwrite": idx % 3 == 1,
+        "rational": idx % 3 == 2,      # copy operations assign fractions with deferred inversion, incl. inverses of zero
     }
 
 
